@@ -53,7 +53,11 @@ func c16Ident(r *Rng) string {
 	}
 }
 
-var annoNames = []string{"number", "string", "boolean", "any", "nil", "integer", "People", "Man", "Handler", "T"}
+// the default types of docs/manual/annotate.md and what every end-to-end file declares itself
+var c16DeclaredNames = map[string]bool{"number": true, "string": true, "boolean": true, "any": true, "nil": true, "integer": true, "thread": true, "table": true, "void": true,
+	"userdata": true, "lightuserdata": true, "function": true, "People": true, "Man": true, "Handler": true}
+
+var annoNames = []string{"number", "string", "boolean", "any", "nil", "integer", "thread", "table", "void", "userdata", "lightuserdata", "function", "People", "Man", "Handler", "T"}
 
 func genAType(r *Rng, depth int) *AType {
 	if depth <= 0 {
@@ -825,7 +829,16 @@ func c16EndToEnd(c *Ctx, r *Rng) {
 		for _, a := range annos {
 			c.Count("end_to_end_conformant_lines", 1)
 			for _, m := range bd[a.line] {
-				if strings.HasPrefix(m, "t18:") && !strings.Contains(m, "not define annotate type") {
+				if k := strings.Index(m, "not define annotate type: "); k >= 0 {
+					// generated lines name types that nothing declares; the documented default types and the classes and the alias this
+					// file declares are declared
+					if nm := strings.TrimSpace(m[k+len("not define annotate type: "):]); c16DeclaredNames[nm] {
+						c.Report("end-to-end-declared-type-reported-undeclared|"+map[bool]string{true: "default-type", false: "type-of-this-file"}[nm != "People" && nm != "Man" && nm != "Handler"],
+							fmt.Sprintf("conformant line %q gets %s", a.cs.Line, m), map[string]interface{}{"file": base})
+					}
+					continue
+				}
+				if strings.HasPrefix(m, "t18:") {
 					c.Report(fmt.Sprintf("end-to-end-conformant-line-warned|%s|%s", a.cs.Kind, annoShape(a.cs)), fmt.Sprintf("conformant line %q gets %s", a.cs.Line, m), map[string]interface{}{"file": base})
 				}
 			}
